@@ -26,7 +26,7 @@ from .C11_oracle import ORACLE, DRIVER, MODULE
 
 TITLE = "engine caches are reset before every check; all mutated global state is numbering / definition store / engine / scoped; HUGR identical across session histories (bounded)"
 EN = "guppylang_internals.engine"
-NCH = 8
+NCH = 11
 
 # classification of mutated module/class-level state (name -> (kind, justification))
 ALLOWED = {
